@@ -224,6 +224,20 @@ Theorem C16_content_size_is_true_length : forall X o m e, law_dechunk X ->
 Proof. exact response_content_is_code_decode. Qed.
 Print Assumptions C16_content_size_is_true_length.
 
+(* a request is missing from the log exactly when capture is on, it carries a
+   body, and the body is declared form / multipart and does not parse: for ALL
+   messages.  So a well-formed form or multipart body is always logged and
+   parsed into parameters. *)
+Theorem C16_request_dropped_iff : forall X o m, law_dechunk X ->
+  (har_req X o m = Err <-> req_may_drop X (capture o (q_hdrs m)) m).
+Proof. exact request_dropped_iff. Qed.
+Print Assumptions C16_request_dropped_iff.
+
+Theorem C16_request_dropped_verdict : forall X cap m rt,
+  c16_req_ok X cap m Err rt = false <-> ~ req_may_drop X cap m.
+Proof. exact request_dropped_verdict. Qed.
+Print Assumptions C16_request_dropped_verdict.
+
 (* the guard of the partial theorem is exactly "neither known signature" *)
 Theorem C16_guard_is_absence_of_known_defects : forall X m,
   coding_guard X m <-> coding_case_b (hget k_ce (s_hdrs m)) = false /\ zlib_b X m = false.
@@ -349,10 +363,19 @@ Qed.
 (* a request is dropped: capture on, urlencoded body that does not parse *)
 Example C16_example_request_dropped :
   law_dechunk noform_X /\ har_req noform_X OAll bad_form_req = Err /\
-  capture OAll (q_hdrs bad_form_req) = true.
+  capture OAll (q_hdrs bad_form_req) = true /\
+  c16_req_ok noform_X true bad_form_req Err None = true.
 Proof.
-  split; [intro b; apply dechunk_concrete_chunk_enc|]. split; vm_compute; reflexivity.
+  split; [intro b; apply dechunk_concrete_chunk_enc|]. repeat split; vm_compute; reflexivity.
 Qed.
+
+(* ... and a well-formed multipart upload with a mixed-case boundary must be
+   logged with its parameters: a missing entry is rejected by the oracle *)
+Example C16_example_request_must_be_logged :
+  (exists e, har_req webkit_X OAll webkit_req = Ok e /\
+     r_post e = Some (mkPost (B "multipart/form-data") [mkParam (B "f") (B "v") [] []] [])) /\
+  c16_req_ok webkit_X true webkit_req Err None = false.
+Proof. split; [eexists; split|]; vm_compute; reflexivity. Qed.
 
 (* a response is dropped / its guard fails: the zlib witness; and the guard's
    decidable form on the two refutation witnesses *)
